@@ -149,9 +149,8 @@ func serVal(sb *strings.Builder, v any, fl floats) error {
 		}
 		return nil
 	case gojq.JQValue:
-		// a JQValue that is not a decode value (Binary of `_bits`, …): outside the model
-		sb.WriteString("X")
-		return nil
+		// a JQValue that is not a decode value (a gojqx.Array slice; the Binary of `_bits`): its plain value
+		return serVal(sb, vv.JQValueToGoJQ(), fl)
 	default:
 		return serJV(sb, v, fl)
 	}
